@@ -262,6 +262,10 @@ func tokenBridgeUpdateMinimalConsistencyLevel(
 	sequence uint64,
 	targetChainId vaa.ChainID,
 ) (*vaa.VAA, error) {
+	if req.NewConsistencyLevel > math.MaxUint8 {
+		return nil, errors.New("invalid new_consistency_level")
+	}
+
 	v := vaa.CreateGovernanceVAA(governanceChainId, governanceEmitterAddress, timestamp, nonce, sequence, targetChainId, guardianSetIndex,
 		vaa.BodyTokenBridgeUpdateMinimalConsistencyLevel{
 			NewConsistencyLevel: uint8(req.NewConsistencyLevel),
